@@ -486,12 +486,12 @@ def run(info, out):
     recs, crashes = execute(cases, "main", flavours)
     ndiff = analyse(recs, crashes, out, stats)
     searched = 0
-    if (ndiff or not info["proof_ok"]) and not out.violations:
+    if (ndiff or not info["proof_ok"]) and not [v for v in out.violations if v[0] not in open_signatures("C15")]:
         cases2 = gen_cases(Rng(seed + 7919).fork("C15-search"), tier, scale=10 if tier == "quick" else 3)
         r2, c2 = execute(cases2, "search", ["f"])
         analyse(r2, c2, out, {})
         searched = len(r2)
-        if not out.violations and ndiff:
+        if not [v for v in out.violations if v[0] not in open_signatures("C15")] and ndiff:
             otag, fl, bad, a, b = stats["diffs"][0]
             p = payload(recs[otag], fl, "model/implementation disagree on %s" % (bad,))
             p.update({"broken": "correspondence PermModel.permute_checked vs splinetable::permuteDimensions", "disagreements": [bad, a, b], "no_failing_input_found": True})
